@@ -8,6 +8,8 @@
      reclFlag reclCPU reclMem           (reclFlag 1 = ProdReclaimableMetric reported)
      nApps (prio cpu mem)*
      nPods (phase plabel pval qlabel kube reqCPU reqMem has mprio useCPU useMem numa)*
+     [annoKind aStaticCPU aStaticMem aUnalloc lblCpuKind lblCpuH lblMemKind lblMemH]   optional node-level
+       strategy sources, resolved by Model.resolve_mstrategy (real: sloconfig.GetNodeColocationStrategy)
    observable: see Model.run_mid *)
 From Coq Require Import List ZArith Bool.
 From Verif Require Import Lib.Wire C09.Model C09.Spec.
@@ -28,8 +30,12 @@ Definition decode_m (l : list Z) : minput :=
   | md :: ct :: mt :: un :: sc :: sm :: dg :: age :: cc :: cm :: ac :: am ::
     af :: anc :: anm :: syc :: sym :: uf :: uc :: um :: rf :: rc :: rm :: t =>
       let '(apps, t1) := decode_seq dec_amt t in
-      let '(pods, _) := decode_seq dec_pod t1 in
-      mkM (mkMStrategy (md =? 1) ct mt un sc sm dg) age cc cm ac am (zb af) anc anm syc sym
+      let '(pods, t2) := decode_seq dec_pod t1 in
+      let nc := match t2 with
+                | ak :: a1 :: a2 :: a3 :: k1 :: h1 :: k2 :: h2 :: _ => mkMNodeCfg ak a1 a2 a3 k1 h1 k2 h2
+                | _ => mnodecfg0
+                end in
+      mkM (resolve_mstrategy (mkMStrategy (md =? 1) ct mt un sc sm dg) nc) age cc cm ac am (zb af) anc anm syc sym
           (uf =? 1) uc um (zb rf) rc rm apps pods
   | _ => mkM (mkMStrategy false (-1) (-1) (-1) (-1) (-1) 1) (-1) 0 0 0 0 false 0 0 0 0 false 0 0 false 0 0 [] []
   end.
